@@ -172,12 +172,12 @@ func (c *trCtx) forStmt(x *ast.ForStmt, k trK) trLines {
 	var params []string
 	var callArgs []string
 	for _, o := range free {
-		params = append(params, "("+c.names[o]+" : "+c.leanType(o.Type(), o.Pos())+")")
+		params = append(params, "("+c.names[o]+" : "+c.varType(o, o.Pos())+")")
 		callArgs = append(callArgs, c.names[o])
 	}
 	var sparams, sargs []string
 	for _, o := range state {
-		sparams = append(sparams, "("+c.names[o]+" : "+c.leanType(o.Type(), o.Pos())+")")
+		sparams = append(sparams, "("+c.names[o]+" : "+c.varType(o, o.Pos())+")")
 		sargs = append(sargs, c.names[o])
 	}
 	savedLoop, savedPre := c.loop, c.takePre()
@@ -408,12 +408,12 @@ func (c *trCtx) rangeRec(x *ast.RangeStmt, elemTy types.Type, m *types.Map, k tr
 	}
 	var params, callArgs []string
 	for _, o := range free {
-		params = append(params, "("+c.names[o]+" : "+c.leanType(o.Type(), o.Pos())+")")
+		params = append(params, "("+c.names[o]+" : "+c.varType(o, o.Pos())+")")
 		callArgs = append(callArgs, c.names[o])
 	}
 	var sparams, sargs []string
 	for _, o := range state {
-		sparams = append(sparams, "("+c.names[o]+" : "+c.leanType(o.Type(), o.Pos())+")")
+		sparams = append(sparams, "("+c.names[o]+" : "+c.varType(o, o.Pos())+")")
 		sargs = append(sargs, c.names[o])
 	}
 	items := c.fresh("items")
